@@ -191,6 +191,8 @@ pub fn stack_cases(tier: &str, acc: &mut Acc) {
         ("7k/8/8/8/8/8/8/K7 w - - 0 1", ["a1b1", "h8g8", "b1a1", "g8h8"]),
         ("rnbqkbnr/pppppppp/8/8/8/8/PPPPPPPP/RNBQKBNR w KQkq - 0 1", ["g1f3", "g8f6", "f3g1", "f6g8"]),
         ("k7/8/8/p1p1p1p1/P1P1P1P1/8/8/K7 w - - 0 1", ["a1b1", "a8b8", "b1a1", "b8a8"]),
+        // cornered king: the search deepens fastest here (depth 30+ within a second), so the deepest plies are reached from a long game
+        ("k7/2K5/8/8/8/8/8/8 w - - 0 1", ["c7c8", "a8a7", "c8c7", "a7a8"]),
     ];
     for (root, shuffle) in roots {
         for plies in [1usize, 2, 397, 398, 399, 400] {
@@ -294,7 +296,7 @@ pub fn run(tier: &str, seed: i64) -> Outcome {
     let t1 = std::time::Instant::now();
     let mut a2 = Acc::new();
     stack_cases(tier, &mut a2);
-    reports.push(SpaceReport { name: "state stack: games of 1, 2, 397..400 plies through the real `position` command x 3 roots, then unlimited and depth-limited (1, 34, 64, 255[, 112..114]) searches".into(), states: a2.states, exhaustive: true, note: format!("[{:.1}s]", t1.elapsed().as_secs_f64()) });
+    reports.push(SpaceReport { name: "state stack: games of 1, 2, 397..400 plies through the real `position` command x 4 roots, then unlimited and depth-limited (1, 34, 64, 255[, 112..114]) searches".into(), states: a2.states, exhaustive: true, note: format!("[{:.1}s]", t1.elapsed().as_secs_f64()) });
     acc.merge(a2);
     // (3) self-play in worker processes
     let t2 = std::time::Instant::now();
